@@ -153,100 +153,144 @@ def run(ctx):
         flags = [c for c in b.calls() if c.def_.startswith("core::sync::atomic::Atomic") and c.name in ("store", "swap", "load", "compare_exchange", "fetch_or", "fetch_and")]
         ctx.check(not flags, "R20.7", fnkey(b) + "#no-side-flag", loc(b, flags[0].bb if flags else None),
                   "the drain consults or updates a separate atomic (%s) next to the bucket counters: the pair is not updated atomically with respect to record()" % [c.name for c in flags])
-        cls = F.closures_of(b)
-        filt = [cb for cb in cls if any(c.name == "count" for c in cb.calls()) and cb.locals[0]["ty"] == "bool"]
-        mapc = [cb for cb in cls if cb.locals[0]["ty"].endswith("Bucket")]
-        okf = False
-        for cb in filt:
-            from rules.c12 import discr_def
-            for i in cb.live_blocks():
-                for s in cb.stmts(i):
-                    if s["k"] == "assign" and s["lhs"]["l"] == 0 and s["rv"]["k"] == "binop" and s["rv"]["op"] in ("Gt", "Ne"):
-                        o = Prov(cb).operand(s["rv"]["b"])
-                        okf = okf or any(x == ("const", ("int", 0)) for x in o)
-        ctx.check(okf, "R20.2", fnkey(b) + "#keeps-non-empty-buckets", loc(b), "drain does not keep exactly the buckets with count > 0")
+        # adapter form (filter / map closures), plain loop form, or a private helper: all are read (same reading as R11.1's drains)
+        from rules.c11 import keeps_nonempty
+        units = [b] + list(F.closures_of(b))
+        for c_ in b.calls():
+            for hb in local_callee_bodies(F, c_) + fn_item_args(F, c_):
+                if hb.crate == MR and hb not in units and hb.name != "midpoint":
+                    units += [hb] + list(F.closures_of(hb))
+        is_emit = lambda s_: s_["k"] == "assign" and s_["rv"]["k"] == "agg" and (s_["rv"].get("adt") or "").endswith("Bucket") and "count" in (s_["rv"].get("fields") or [])
+        kn = keeps_nonempty(units, b, is_emit)
+        ctx.check(kn == "keep-iff-count>0", "R20.2", fnkey(b) + "#keeps-non-empty-buckets", loc(b), "drain does not keep exactly the buckets with count > 0 (%s)" % kn)
         okm = False
-        for cb in mapc:
+        for cb in units:
             pr = Prov(cb)
             for i in cb.live_blocks():
                 for s in cb.stmts(i):
-                    if s["k"] == "assign" and s["rv"]["k"] == "agg" and (s["rv"].get("adt") or "").endswith("Bucket") and "count" in (s["rv"].get("fields") or []):
+                    if is_emit(s):
                         o = pr.operand(s["rv"]["ops"][s["rv"]["fields"].index("count")])
                         okm = okm or any(x[0] == "call" and cb.term(x[1])["callee"]["name"] == "count" for x in o)
         ctx.check(okm, "R20.2", fnkey(b) + "#count-from-bucket", loc(b), "reported bucket count does not come from Bucket::count()")
     # ------------------------------------------------------------------ R20.3 entry writing
-    ws = [b for b in F.all_bodies(MR) if b.name == "write" and b.impl and (b.impl.get("trait") or "").endswith("::Entry") and "MetricAccumulatorEntry" in b.path and "MultiObservation" not in b.path]
+    # the private value type an item is wrapped in, by role: the struct of this crate that implements `Value`, with one field of type Unit,
+    # one holding the (name, value) dimension pairs and one holding the observations
+    MO = {}
+    for imp in F.impls_of("Value"):
+        a_ = F.adts.get((imp.get("self_head") or {}).get("adt") or "")
+        if imp["crate"] != MR or not a_ or "/tests/" in imp["span"]["file"] or len(a_["variants"]) != 1:
+            continue
+        fs_ = a_["variants"][0]["fields"]
+        un_ = [f["name"] for f in fs_ if f["ty"].endswith("unit::Unit")]
+        di_ = [f["name"] for f in fs_ if "Vec<(&" in f["ty"]]
+        va_ = [f["name"] for f in fs_ if f["name"] not in un_ + di_]
+        if len(un_) == 1 and len(di_) == 1 and len(va_) == 1:
+            MO[a_["def"]] = {"value": va_[0], "unit": un_[0], "dimensions": di_[0]}
+    ctx.floor("R20.3", "observation value type of the bridge (Value impl with unit + dimensions + observations)", len(MO), 1)
+    ws = [b for b in F.all_bodies(MR) if b.name == "write" and b.impl and (b.impl.get("trait") or "").endswith("::Entry") and "MetricAccumulatorEntry" in b.path and
+          (b.impl.get("self_head") or {}).get("adt") not in MO]
     ctx.floor("R20.3", "accumulator entry writers", len(ws), 1)
     for b in ws:
         pr = Prov(b, adapter_pred=lambda t: (t.get("callee") or {}).get("name") in ("unwrap_or", "deref", "as_ref"))
         dom = b.dominators()
-        vals = [c for c in b.calls() if c.is_trait_method("EntryWriter", "value")]
         cfg = [c for c in b.calls() if c.is_trait_method("EntryWriter", "config")]
-        ctx.check(len(vals) == 3, "R20.3", fnkey(b) + "#three-kinds-written", loc(b), "expected value() sites for counters, gauges and histograms, found %d" % len(vals))
-        ctx.check(bool(cfg) and all(any(dominates(b, c.bb, v.bb, dom) for c in cfg) for v in vals), "R20.3", fnkey(b) + "#split-config-first", loc(b),
+        # an item = a value() call of this body, or a call of a private helper that holds the one value() call for the item it is given
+        items = [(b, c, c) for c in b.calls() if c.is_trait_method("EntryWriter", "value")]
+        for c in b.calls():
+            for hb in local_callee_bodies(F, c):
+                hv = [x for x in hb.calls() if x.is_trait_method("EntryWriter", "value")] if hb.crate == MR and hb.kind != "Closure" else []
+                if len(hv) == 1:
+                    items.append((hb, hv[0], c))
+        ctx.check(len(items) == 3, "R20.3", fnkey(b) + "#three-kinds-written", loc(b), "expected value() sites for counters, gauges and histograms, found %d" % len(items))
+        ctx.check(bool(cfg) and all(any(dominates(b, c.bb, site.bb, dom) for c in cfg) for _, _, site in items), "R20.3", fnkey(b) + "#split-config-first", loc(b),
                   "AllowSplitEntries is not configured before the first value (labelled metrics would be rejected)")
+
+        def unit_ok(body, op, depth=2):
+            """the operand is the described unit looked up under the item's name (directly or through a private helper)"""
+            pr_ = Prov(body, adapter_pred=lambda t: (t.get("callee") or {}).get("name") in ("unwrap_or", "deref", "as_ref"))
+            for x in pr_.operand(op):
+                if x[0] != "call":
+                    continue
+                t_ = body.term(x[1])
+                if t_["callee"]["name"] == "get":
+                    ka = pr_.operand(t_["args"][1])
+                    ma = pr_.operand(t_["args"][0])
+                    if any(y[0] == "call" and body.term(y[1])["callee"]["name"] == "key_name" for y in ka) and any(y[0] == "arg" and "units" in y[2] for y in ma):
+                        return True
+                elif depth > 0:
+                    for hb in local_callee_bodies(F, CallSite(body, x[1], t_)):
+                        if hb.crate == MR and unit_ok(hb, {"copy": {"l": 0, "p": []}}, depth - 1):
+                            return True
+            return False
+
+        def kind_of(body, origins):
+            kind = [x[2] for x in origins if x[0] == "agg" and x[2] in ("Unsigned", "Floating", "Repeated")]
+            if kind:
+                return kind[:1]
+            # histogram: a map closure building Repeated
+            cands = []
+            for x in origins:
+                if x[0] == "agg" and isinstance(x[1], str) and "{closure" in x[1]:
+                    cands.append(F.bodies.get((body.crate, x[1])))
+                if x[0] == "call":
+                    cands += closure_args(F, CallSite(body, x[1], body.term(x[1])))
+            for cb in cands:
+                if not cb:
+                    continue
+                for j in cb.live_blocks():
+                    for s2 in cb.stmts(j):
+                        if s2["k"] == "assign" and s2["rv"]["k"] == "agg" and s2["rv"].get("variant") == "Repeated":
+                            oc = Prov(cb).operand(s2["rv"]["ops"][s2["rv"]["fields"].index("occurrences")])
+                            tt = Prov(cb).operand(s2["rv"]["ops"][s2["rv"]["fields"].index("total")])
+                            if any(y[0] == "arg" and "count" in y[2] for y in oc) and any(y[0] == "arg" and "value" in y[2] for y in tt) and any(y[0] == "arg" and "count" in y[2] for y in tt):
+                                return ["Repeated"]
+            return []
         kinds = []
-        for n, v in enumerate(vals):
+        for n, (vb, v, site) in enumerate(items):
             key = fnkey(b) + "#item%d" % n
-            ctx.check(v.bb in b.reachable_after(v.bb), "R20.3", key + "-per-element", loc(b, v.bb), "value() is not inside the per-element loop")
-            no = pr.operand(v.args[1])
-            ctx.check(any(x[0] == "call" and b.term(x[1])["callee"]["name"] == "key_name" for x in no), "R20.3", key + "-named-by-key", loc(b, v.bb), "item is not written under V::key_name(key)")
+            vpr = pr if vb is b else Prov(vb, adapter_pred=lambda t: (t.get("callee") or {}).get("name") in ("unwrap_or", "deref", "as_ref"))
+            vdom = dom if vb is b else vb.dominators()
+            ctx.check(site.bb in b.reachable_after(site.bb), "R20.3", key + "-per-element", loc(b, site.bb), "value() is not inside the per-element loop")
+            no = vpr.operand(v.args[1])
+            ctx.check(any(x[0] == "call" and vb.term(x[1])["callee"]["name"] == "key_name" for x in no), "R20.3", key + "-named-by-key", loc(vb, v.bb), "item is not written under V::key_name(key)")
             # the MultiObservation aggregate
-            vo = pr.operand(v.args[2])
             aggs = []
-            for i in b.live_blocks():
-                for s in b.stmts(i):
-                    if s["k"] == "assign" and s["rv"]["k"] == "agg" and "MultiObservation" in (s["rv"].get("adt") or "") and v.bb in b.reachable(i):
+            for i in vb.live_blocks():
+                for s in vb.stmts(i):
+                    if s["k"] == "assign" and s["rv"]["k"] == "agg" and s["rv"].get("adt") in MO and v.bb in vb.reachable(i):
                         aggs.append((i, s))
             # nearest aggregate dominating the call
-            aggs = [(i, s) for i, s in aggs if dominates(b, i, v.bb, dom)]
+            aggs = [(i, s) for i, s in aggs if dominates(vb, i, v.bb, vdom)]
             if not aggs:
-                ctx.bad("R20.3", key + "-observation", loc(b, v.bb), "cannot find the observation value built for this item")
+                ctx.bad("R20.3", key + "-observation", loc(vb, v.bb), "cannot find the observation value built for this item")
                 continue
             i, s = aggs[-1]
-            flds = dict(zip(s["rv"]["fields"], s["rv"]["ops"]))
-            uo = pr.operand(flds["unit"])
-            gets = [x for x in uo if x[0] == "call" and b.term(x[1])["callee"]["name"] == "get"]
-            none_default = any(x[0] == "const" for x in uo) or any(x[0] == "call" and b.term(x[1])["callee"]["name"] == "unwrap_or" for x in uo)
-            ok_unit = False
-            for g in gets:
-                ka = pr.operand(b.term(g[1])["args"][1])
-                ma = pr.operand(b.term(g[1])["args"][0])
-                ok_unit = ok_unit or (any(x[0] == "call" and b.term(x[1])["callee"]["name"] == "key_name" for x in ka) and any(x[0] == "arg" and "units" in x[2] for x in ma))
-            ctx.check(ok_unit, "R20.3", key + "-described-unit", loc(b, i), "the item's unit is not looked up in the described units under its name (origins %s)" % sorted(map(str, uo))[:3])
-            do = pr.operand(flds["dimensions"])
-            ctx.check(any(x[0] == "call" and b.term(x[1])["callee"]["name"] == "key_labels" for x in do), "R20.3", key + "-labels-as-dimensions", loc(b, i), "labels are not passed as dimensions")
-            vo2 = pr.operand(flds["value"])
-            kind = [x[2] for x in vo2 if x[0] == "agg" and x[2] in ("Unsigned", "Floating", "Repeated")]
-            if not kind:
-                # histogram: a map closure building Repeated
-                cands = []
+            raw_ = dict(zip(s["rv"]["fields"], s["rv"]["ops"]))
+            flds = {role: raw_[fname] for role, fname in MO[s["rv"]["adt"]].items()}
+            ctx.check(unit_ok(vb, flds["unit"]), "R20.3", key + "-described-unit", loc(vb, i),
+                      "the item's unit is not looked up in the described units under its name (origins %s)" % sorted(map(str, vpr.operand(flds["unit"])))[:3])
+            do = vpr.operand(flds["dimensions"])
+            ctx.check(any(x[0] == "call" and vb.term(x[1])["callee"]["name"] == "key_labels" for x in do), "R20.3", key + "-labels-as-dimensions", loc(vb, i), "labels are not passed as dimensions")
+            vo2 = vpr.operand(flds["value"])
+            kind = kind_of(vb, vo2)
+            if not kind and vb is not b:
+                # the helper writes what it was given: the kind is decided where the helper is called
                 for x in vo2:
-                    if x[0] == "agg" and isinstance(x[1], str) and "{closure" in x[1]:
-                        cands.append(F.bodies.get((b.crate, x[1])))
-                    if x[0] == "call":
-                        cands += closure_args(F, CallSite(b, x[1], b.term(x[1])))
-                for cb in cands:
-                        if cb:
-                            for j in cb.live_blocks():
-                                for s2 in cb.stmts(j):
-                                    if s2["k"] == "assign" and s2["rv"]["k"] == "agg" and s2["rv"].get("variant") == "Repeated":
-                                        oc = Prov(cb).operand(s2["rv"]["ops"][s2["rv"]["fields"].index("occurrences")])
-                                        tt = Prov(cb).operand(s2["rv"]["ops"][s2["rv"]["fields"].index("total")])
-                                        if any(y[0] == "arg" and "count" in y[2] for y in oc) and any(y[0] == "arg" and "value" in y[2] for y in tt) and any(y[0] == "arg" and "count" in y[2] for y in tt):
-                                            kind = ["Repeated"]
+                    if x[0] == "arg" and not x[2] and x[1] - 1 < len(site.args):
+                        kind = kind or kind_of(b, pr.operand(site.args[x[1] - 1]))
             kinds += kind[:1]
         ctx.check(sorted(kinds) == ["Floating", "Repeated", "Unsigned"], "R20.3", fnkey(b) + "#observation-kinds", loc(b),
                   "counters/gauges/buckets are not written as Unsigned/Floating/Repeated{value*count,count}: %s" % kinds)
     # MultiObservation::write forwards value, unit, dimensions
     for b in F.all_bodies(MR):
-        if b.name == "write" and "MultiObservation" in b.path and b.impl and (b.impl.get("trait") or "").endswith("::Value"):
+        if b.name == "write" and b.impl and (b.impl.get("trait") or "").endswith("::Value") and (b.impl.get("self_head") or {}).get("adt") in MO:
             pr = Prov(b, adapter_pred=lambda t: (t.get("callee") or {}).get("name") in ("iter", "cloned", "clone", "deref"))
             m = [c for c in b.calls() if c.is_trait_method("ValueWriter", "metric")]
             ok = len(m) == 1
             if ok:
                 c = m[0]
-                want = ["value", "unit", "dimensions"]
+                roles_ = MO[b.impl["self_head"]["adt"]]
+                want = [roles_["value"], roles_["unit"], roles_["dimensions"]]
                 for w, a in zip(want, c.args[1:4]):
                     ok = ok and any(x[0] == "arg" and x[1] == 1 and w in x[2] for x in pr.operand(a))
             ctx.check(ok, "R20.3", fnkey(b) + "#forwards-value-unit-dimensions", loc(b), "the observation value does not forward its value/unit/dimensions to ValueWriter::metric unchanged")
